@@ -16,7 +16,8 @@ from typing import Dict, List, Optional, Set
 
 from sa import partial
 from sa.guards import assigned_names, facts_at, root_name
-from sa.model import (AnalysisError, FuncInfo, Program, callees, closure, parent,
+from sa.model import (AnalysisError, FuncInfo, Program, ancestors, callees,
+                      closure, parent,
                       src, walk_local)
 from sa.report import Check
 from sa.stackstate import StackAnalysis, bool_flags, find_stacks
@@ -359,6 +360,28 @@ def d3_termination(chk: Check, cl: List[FuncInfo]) -> None:
                 chk.fail("C14-D3a", fi, n, "while " + src(n.test),
                          "a while loop in the parser closure has no static "
                          "bound on its trip count")
+            elif isinstance(n, ast.comprehension):
+                # the loop of a comprehension: its "body" is an expression
+                # and cannot re-bind or (short of a method call on the
+                # iterated name) mutate what it ranges over
+                it_root = root_name(n.iter)
+                elt_calls = [c for c in ast.walk(parent(n))
+                             if isinstance(c, ast.Call) and
+                             isinstance(c.func, ast.Attribute) and
+                             root_name(c.func.value) == it_root and
+                             c.func.attr in ("append", "extend", "insert",
+                                             "pop", "remove", "clear",
+                                             "add", "update")]
+                text = "comprehension for {} in {}".format(
+                    src(n.target), src(n.iter)[:60])
+                if it_root and elt_calls:
+                    chk.fail("C14-D3b", fi, parent(n), text,
+                             "the comprehension changes `{}`, the value it "
+                             "ranges over".format(it_root))
+                else:
+                    chk.ok("C14-D3b", fi, parent(n), text,
+                           "an expression loop over a value it does not "
+                           "change")
             elif isinstance(n, (ast.For, ast.AsyncFor)):
                 it_root = root_name(n.iter)
                 muts: Set[str] = set()
@@ -453,6 +476,14 @@ def d2c_templates(chk: Check, cl: List[FuncInfo],
              "template", floor=20)
     for fi in cl:
         for c in walk_local(fi.node):
+            if isinstance(c, ast.JoinedStr) and not any(
+                    isinstance(a, ast.JoinedStr) for a in ancestors(c)):
+                # the same message written as an f-string: the braces of
+                # the run-time text are never interpreted
+                chk.ok(rid, fi, c, "{}: f-string {}".format(
+                    fi.short, src(c)[:40]), "an f-string has no run-time "
+                    "template", False)
+                continue
             if not (isinstance(c, ast.Call) and
                     isinstance(c.func, ast.Attribute) and
                     c.func.attr == "format"):
